@@ -7,6 +7,9 @@ mod c07;
 mod c08;
 mod c09;
 mod c10;
+mod c11;
+mod c12;
+mod distmodel;
 mod c19;
 mod common;
 mod json;
@@ -72,6 +75,9 @@ fn main() {
         "C08" => (c08::run(&cfg), c08::RULE, c08::REQUIRED),
         "C09" => (c09::run(&cfg), c09::RULE, c09::REQUIRED),
         "C10" => (c10::run(&cfg), c10::RULE, c10::REQUIRED),
+        "C11" => (c11::run(&cfg), c11::RULE, c11::REQUIRED),
+        "C12" => (c12::run12(&cfg), c12::RULE12, c12::REQUIRED12),
+        "C13" => (c12::run13(&cfg), c12::RULE13, c12::REQUIRED13),
         "C19" => (c19::run(&cfg), c19::RULE, c19::REQUIRED),
         _ => usage(),
     };
